@@ -194,10 +194,41 @@ def edit_op(rnd, f='a', span=12, other=None, weights=None):
 
 def motif(rnd, f='a', span=12):
     """short directed sequences aimed at incremental-update corner cases (each step is an ordinary editing operation)"""
-    k = rnd.choice(['introduce', 'there-and-back', 'swap', 'chain-edit', 'erase-recreate', 'func-body-edit', 'index-edit', 'func-retype', 'text-ref-erase', 'tracked-duplicate', 'shared-formal'])
+    k = rnd.choice(['introduce', 'there-and-back', 'swap', 'chain-edit', 'erase-recreate', 'func-body-edit', 'index-edit', 'func-retype', 'text-ref-erase', 'tracked-duplicate', 'shared-formal', 'manual-form', 'track-equate', 'refused-rename'])
     i, j, t = rnd.randrange(span), rnd.randrange(span), rnd.randrange(span)
     name = rnd.choice(DANGLING[:6])
     mk = lambda **kw: dict({'op': 'form.op', 'f': f}, **kw)
+    if k == 'manual-form':
+        # a term that resolves through a reference carries a manual word form used by another text; then the reference is
+        # replaced by literal text that reads the same (the manual forms go, the nominal text stays)
+        tags = rnd.choice(['plur,nomn', 'sing,gent', 'plur,datv'])
+        return [mk(k='emplace', type='term', **{'def': '$[0]\\$[0]'}),
+                mk(k='setterm', uid={'made': -1}, text=rnd.choice(['человек', 'кот'])),
+                mk(k='emplace', type='term', **{'def': '$[0]∪$[0]'}),
+                mk(k='setterm', uid={'made': -1}, text='@{$made[-2]|sing,nomn}'),
+                mk(k='settermform', uid={'made': -1}, text='люди', tags=tags),
+                mk(k='emplace', type='term', **{'def': '$[0]∩$[0]'}),
+                mk(k='setdef', uid={'made': -1}, text='все @{$made[-2]|%s} кроме @{$made[-2]|sing,nomn}' % tags),
+                mk(k='setterm', uid={'made': -2}, text='$nom[-2]'),
+                mk(k='setterm', uid={'made': -3}, text=rnd.choice(['зверь', 'человек']))]
+    if k == 'track-equate':
+        # a tracked constituent disappears through an equation (not through Erase); its identifier comes back with a copy
+        rec = {'uid': {'gone': -1}, 'alias': 'D9', 'type': 'term', 'rs': '$[0]', 'conv': '', 'term': '', 'text': ''}
+        d = rnd.choice(['$[0]\\$[0]', 'ℬ($[0])'])
+        return [mk(k='emplace', type='term', **{'def': d}),
+                mk(k='emplace', type='term', **{'def': d}),
+                mk(k='track', uid={'made': -1}, flags=[rnd.random() < 0.5, False, False, False]),
+                mk(k='equate', pairs=[[{'made': -1}, {'made': -2}] + rnd.choice([[], ['keepDel']])]),
+                mk(k='insertcopy_rec', rec=rec),
+                mk(k='setexpr', uid={'idx': -1}, text='$[0]∪$[0]'),
+                mk(k='erase', uid={'idx': -1})]
+    if k == 'refused-rename':
+        # renames that are refused (name taken / wrong kind letter / ill-formed), then operations that draw on the name registry
+        return [mk(k='setalias', uid={'idx': i}, alias='$[%d]' % j, subst=rnd.random() < 0.5),
+                mk(k='setalias', uid={'idx': i}, alias=rnd.choice(['Q1', 'x', '$[%d]' % t]), subst=True),
+                mk(k='emplace', type=rnd.choice(['basic', 'term', 'structure', 'axiom']), **{'def': ''}),
+                mk(k='setalias', uid={'idx': j}, alias='$[%d]' % i, subst=True),
+                mk(k='emplace', type='term', **{'def': '$[%d]∪$[%d]' % (i, j)})]
     if k == 'shared-formal':
         # two functions share a formal name: one call binds it to a property, a later call of the other binds it to a value
         return [mk(k='emplace', type='function', **{'def': '[α∈ℬℬ($[0])] α\\α'}),
